@@ -193,7 +193,7 @@ Qed.
    twice: ENTRY and EXIT time coincide, so both passes emit every event of the frame *)
 Definition zero_cfg : xcfg :=
   {| xb := mkcfg [(0, {| t_filter := None; t_depth := None; t_time := None; t_size := None; t_trace_on := false;
-                         t_trace_off := false; t_trace := true; t_caller := false |})]
+                         t_trace_off := false; t_trace := true; t_caller := false; t_loc := None; t_finish := false |})]
                  false false 1024 0 1024 [] PG;
      read_of := fun a => if a =? 0 then TRIGGER_READ_PAGE_FAULT else 0;
      wp_cpu := false; wp_var := false; pmu_ok := false |}.
